@@ -258,6 +258,11 @@ def c08(acc):
     replay_reader(acc, p, "roundtrip")
     _, p2 = mc_reader(acc, 2 if q else 3, "all", ["Inv_Tiling"], name="MC_Reader-c08all")
     replay_reader(acc, p2, "roundtrip")
+    # construct-focused spaces (blank before '>' after '/', DOCTYPE spelling and nesting, terminator look-alikes)
+    for mode, k in (("tag", 4 if q else 5), ("doctype", 4 if q else 6), ("comment", 4 if q else 6), ("cdata", 4 if q else 6), ("pi", 4 if q else 6)):
+        _, pf = mc_reader(acc, k, "neutral", ["Inv_Tiling", "Inv_RefMatch"], frag=mode, name="MC_Reader-c08" + mode)
+        replay_reader(acc, pf, "slice")
+        replay_reader(acc, pf, "roundtrip")
     trace_reader(acc, 300 if q else 3000, "doc,corpus,mut", "plain", sources="all", max_len=800 if q else 6000)
     return acc.finish()
 
@@ -573,7 +578,7 @@ def c17(acc):
     return acc.finish()
 
 
-RT_TYPES = ["F01", "F02", "F03", "F04", "F05", "F07", "F08", "F11", "F15", "F16", "F17", "F18", "F19", "F20", "F22", "F23", "F24", "F25", "F26"]
+RT_TYPES = ["F01", "F02", "F03", "F04", "F05", "F07", "F08", "F11", "F15", "F16", "F17", "F18", "F19", "F20", "F22", "F23", "F24", "F25", "F26", "F27"]
 
 
 def mc_serde(acc, types, mode, name, timeout=2500):
